@@ -210,7 +210,7 @@ def run(ctx):
     for bname, tags, five in builds:
         offs = offsets(five)
         script = os.path.join(ctx.out, "script-%s.ndjson" % bname)
-        scale = 6 if th else (0.35 if five else 0.7)
+        scale = 6 if th else (0.25 if five else 0.5)
         # executions per kind: (TLC histories of length 3, TLC witnesses, random long histories)
         plan = {"cm": (400, 150, 80), "mem": (150, 100, 60), "sorted": (60, 60, 40), "ldb": (40, 40, 20),
                 "memdb": (60, 40, 20)}
